@@ -77,12 +77,12 @@ def materialise(lib, args):
                 outs[a["n"]] = (ptr[a["n"]], a["outsize"], None)
     for a in args:
         k = a["k"]
+        if a.get("hid"):
+            continue
         if k == "val":
             vals.append(a["v"])
         elif k == "fn":
             vals.append(T.fnaddr(lib, a["sym"]))
-        elif k == "hidden":
-            continue
         else:
             vals.append(ptr[a["n"]])
     return vals, outs, ptr
@@ -132,8 +132,9 @@ def unit_rows(ctx):
     touched_note, okset = {}, {}
     for fn in P["rows"]:
         row = T.ROWS[fn]
-        reps = max(1, int(round(P.get("reps", 1) * row.weight)))
-        for rep in range(P.get("rep0", 0), P.get("rep0", 0) + reps):
+        for rep in range(P.get("rep0", 0), P.get("rep0", 0) + P.get("reps", 1)):
+            if rep % row.every:
+                continue
             r = random.Random("%d/%s/%d" % (base, fn, rep))
             # setup: may call the library with valid arguments only (key generation, producing tokens)
             ctx.case([fn, rep, "setup"], fn + ":setup", nontrivial=False)
